@@ -27,7 +27,8 @@ PROPERTY = "C09"
 LEAN_TARGETS = ["Ipv8.C09.Props"]
 PROPS_FILE = "Ipv8/C09/Props.lean"
 DRIVER = "drv_c09"
-RULE = ("a case = one scenario on 4-6 real TunnelCommunity nodes under the virtual clock: hops in 1..3, phase in "
+RULE = ("(post-mortem data cells 1-4.75 s after the teardown and nodes whose own circuit building keeps failing are "
+        "scenario dimensions too) a case = one scenario on 4-6 real TunnelCommunity nodes under the virtual clock: hops in 1..3, phase in "
         "{half-built, ready, mid-transfer}, teardown by {originator destroy, originator abandon, originator dies, "
         "relay destroy, relay dies, exit destroy, exit dies, none}, a fault plan (drop / duplicate / delay of "
         "destroy, create(d), extend(ed) and relayed cells on chosen links; exhaustive subsets of <= 3 dropped "
@@ -102,6 +103,7 @@ class World:
         self.loop = None
         self.keylabel = {}
         self.addrlabel = {}
+        self.torn_at = None
 
     # ---- time --------------------------------------------------------------------------------------
     def ticks(self) -> int:
@@ -238,6 +240,9 @@ class World:
                         es = ov.exit_sockets.get(circuit_id)
                         if es is not None and tuple(p.dest_address) != ("0.0.0.0", 0):
                             sent = bool(es.is_allowed(p.data))
+                            if not es.enabled:
+                                world.count("exit_enabled_by_data:" + ("after_teardown" if world.torn_at is not None
+                                                                       else "before_teardown"))
                         rec["body"] = ["data", int(sent)]
                     elif mid == TestRequestPayload.msg_id:
                         rec["body"] = ["testreq"]
@@ -488,6 +493,17 @@ class World:
         self.log[lab]({"k": "rmx", "id": cid, "destroy": bool(destroy), "now": bool(remove_now)})
         self.ov(lab).remove_exit_socket(cid, "harness", remove_now=remove_now, destroy=1 if destroy else False)
 
+    def make_wanting(self, lab):
+        """the node wants a circuit of its own but knows no candidate yet: every do_circuits run fails at create_circuit
+        (the periodic sweep must run all the same)"""
+        ov = self.ov(lab)
+        ov.candidates.clear()
+        ov.settings.max_circuits = 1
+        ov.build_tunnels(1)
+        if ov.circuits:
+            raise InfraError("a node without candidates built a circuit")
+        self.count("wanting_node")
+
     def kill(self, lab):
         """the node disappears from the network without a word (its own tables are no longer of interest)"""
         self.dead.add(lab)
@@ -675,6 +691,11 @@ def make_spec(rng, idx, forced=None):
         "traffic_limit": rng.random() < 0.08,
         "late_dup_create": False,
         "stress": None,
+        # data cells sent by the originator 1 .. 4.75 s AFTER the teardown (post-mortem window of remove_tunnel_delay)
+        "postmortem": sorted(rng.sample([16, 40, 104, 168, 232, 296], rng.choice([1, 2, 3]))) if rng.random() < 0.5 else [],
+        # non-originator nodes that want circuits of their own but cannot build any (no candidate discovered yet):
+        # their do_circuits keeps failing at create_circuit every sweep period
+        "wanting": rng.choice(["none", "none", "all", "some"]),
     }
     if spec["hops"] == 1 and spec["teardown"] in ("relay_destroy", "relay_dies"):
         spec["teardown"] = rng.choice(["o_destroy", "exit_destroy", "exit_dies", "o_abandon"])
@@ -703,7 +724,8 @@ def make_spec(rng, idx, forced=None):
 def spec_key(spec):
     return repr((spec["hops"], spec["phase"], spec["teardown"], spec["nodes"], spec["when"],
                  [(f["action"], f["kinds"], f["nth"], f["delay"], f["src"], f["dst"]) for f in spec["faults"]],
-                 spec["chatty_outside"], spec["traffic_limit"], spec["stress"], spec["late_dup_create"]))
+                 spec["chatty_outside"], spec["traffic_limit"], spec["stress"], spec["late_dup_create"],
+                 spec.get("postmortem"), spec.get("wanting")))
 
 
 async def run_scenario(world: World, spec, deadline_extra=0):  # noqa: C901, PLR0912, PLR0915
@@ -714,6 +736,10 @@ async def run_scenario(world: World, spec, deadline_extra=0):  # noqa: C901, PLR
     await world.build(exit_flags)
     for f in spec["faults"]:
         world.faults.append(Fault(f["action"], f["kinds"], f.get("src"), f.get("dst"), f["nth"], f["delay"]))
+    wanting = spec.get("wanting", "none")
+    for lab in range(2, world.n + 1):
+        if wanting == "all" or (wanting == "some" and world.rng.random() < 0.5):
+            world.make_wanting(lab)
     # align to the action grid
     t = odd(world.ticks() + 4)
     await asyncio.sleep((t - world.ticks()) / TPS)
@@ -733,8 +759,7 @@ async def run_scenario(world: World, spec, deadline_extra=0):  # noqa: C901, PLR
     next_user = t_start + 4 * 8    # user data every second, offset .5 s
     next_out = t_start + 4 * 12
     torn = False
-    tl_done = False
-    stress_done = False
+    post = []
     end = None
     t_final = None
     while True:
@@ -750,6 +775,7 @@ async def run_scenario(world: World, spec, deadline_extra=0):  # noqa: C901, PLR
             events.append(end)
         if t_final is not None:
             events.append(t_final)
+        events.extend(post)
         nxt = min(e for e in events if e >= now) if any(e >= now for e in events) else now
         if nxt > now:
             await asyncio.sleep((nxt - now) / TPS)
@@ -770,6 +796,12 @@ async def run_scenario(world: World, spec, deadline_extra=0):  # noqa: C901, PLR
                 if hop[1] == "exit" and hop[0] not in world.dead:
                     world.outside(hop[0], hop[2])
             next_out += TPS + 4 * 8
+            continue
+        if post and now == post[0]:
+            post.pop(0)
+            if 1 not in world.dead and cid in world.ov(1).circuits:
+                world.count("postmortem_data_cell")
+                world.user_data(1, circuit)
             continue
         if t_final is not None and now == t_final:
             t_final = None
@@ -801,6 +833,8 @@ async def run_scenario(world: World, spec, deadline_extra=0):  # noqa: C901, PLR
                 tbl = {"circuit": 0, "relay": 1, "exit": 2}[hop[1]]
                 world.set_traffic(hop[0], tbl, hop[2], 11 * 1024 ** 3)
             td = spec["teardown"]
+            world.torn_at = now
+            post = [now + d for d in spec.get("postmortem", [])]
             relays = [h for h in p if h[1] == "relay"]
             exits = [h for h in p if h[1] == "exit"]
             world.count("teardown:" + td + (":nopath" if (td.startswith("relay") and not relays) or
@@ -1068,7 +1102,8 @@ def exhaustive_specs():
                                       "faults": [{"action": "drop", "kinds": ["destroy"], "nth": list(sub), "delay": 0,
                                                   "src": None, "dst": None}] if sub else [],
                                       "chatty_outside": phase == "transfer", "traffic_limit": False,
-                                      "late_dup_create": False, "stress": None})
+                                      "late_dup_create": False, "stress": None,
+                                      "postmortem": [40] if len(sub) % 2 else [], "wanting": "all" if r == 1 else "none"})
         for r in range(1, 4):
             for sub in itertools.combinations(range(4), r):
                 for kinds in (["created"], ["extended"], ["created", "extended"]):
@@ -1078,7 +1113,7 @@ def exhaustive_specs():
                                   "faults": [{"action": "drop", "kinds": kinds, "nth": list(sub), "delay": 0,
                                               "src": None, "dst": None}],
                                   "chatty_outside": False, "traffic_limit": False, "late_dup_create": False,
-                                  "stress": None})
+                                  "stress": None, "postmortem": [], "wanting": "all" if r == 2 else "none"})
     return specs
 
 
@@ -1093,7 +1128,9 @@ def run_all(ctx: Ctx, n_random, use_model, with_exhaustive):
                 if hops == 1 and td.startswith("relay"):
                     continue
                 spec = make_spec(ctx.rng, idx, {"hops": hops, "teardown": td, "phase": "ready" if idx % 2 else "transfer",
-                                                "faults": [], "traffic_limit": False})
+                                                "faults": [], "traffic_limit": False,
+                                                "postmortem": [16, 168] if idx % 3 != 2 else [],
+                                                "wanting": "all" if idx % 2 == 0 else "none"})
                 run_case(ctx, spec, use_model)
                 idx += 1
         run_case(ctx, {"nodes": 4, "over": 5, "relayed": 0}, use_model, kind="join")
